@@ -124,7 +124,7 @@ func c17RunE2E(ec *c17E2ECase, work string, prog *c17Progress) {
 	noHandshake := make(chan struct{})  // … or it is known that it never will
 	var noHsOnce sync.Once
 	giveUp := func() { noHsOnce.Do(func() { close(noHandshake) }) }
-	agreed := make(chan struct{}, 1)    // the server answered over the tunnel after the ACT
+	agreed := make(chan struct{}, 1) // the server answered over the tunnel after the ACT
 	postDone := make(chan struct{})
 
 	hook := func(dir int, idx int, b []byte) e2eAction {
